@@ -38,6 +38,18 @@ type c09Result struct {
 	ParseErr string       `json:"parse_err,omitempty"`
 }
 
+// c09SafeFormat formats a source the parser has accepted; a panic of the
+// formatter is reported (normalised message) instead of ending the child.
+func c09SafeFormat(parser *syntax.Parser, text, fp string) (out string, err error, crashed string) {
+	defer func() {
+		if r := recover(); r != nil {
+			crashed = normalizeCrash(fmt.Sprint(r))
+		}
+	}()
+	out, err = parser.FormatSrcBytes([]byte(text), fp, false, nil)
+	return
+}
+
 func c09Worker(in []byte) interface{} {
 	var inp c09Input
 	json.Unmarshal(in, &inp)
@@ -60,7 +72,12 @@ func c09Worker(in []byte) interface{} {
 			return res
 		}
 		res.Accepted = true
-		f1, err := parser.FormatSrcBytes([]byte(text), fp, false, nil)
+		f1, err, crashed := c09SafeFormat(&parser, text, fp)
+		if crashed != "" {
+			// the parser accepted the source, so this is the formatter's own failure
+			add("format-crashed:"+crashed, fmt.Sprintf("the formatter panicked on %s, which the parser accepts: %s", name, crashed))
+			return res
+		}
 		if err != nil {
 			add("format-error", "FormatSrcBytes failed on accepted source: "+err.Error())
 			continue
